@@ -1119,9 +1119,15 @@ def dmt_block_valid(arr: np.ndarray, dm_delays: np.ndarray) -> np.ndarray:
             f"samples, given {nsamps}."
         )
         raise ValueError(msg)
-    res = np.empty((ndms, valid_samples), dtype=arr.dtype)
+    nchans = arr.shape[0]
+    start_col = max_pos_shift
+    end_col = nsamps + min_neg_shift
+    res = np.zeros((ndms, valid_samples), dtype=arr.dtype)
     for idm in range(ndms):
-        res[idm] = np.sum(roll_block_valid(arr, dm_delays[idm]), axis=0)
+        # every DM keeps the window that is valid for all DMs
+        for ichan in range(nchans):
+            shift = dm_delays[idm, ichan]
+            res[idm] += arr[ichan, start_col - shift : end_col - shift]
     return res
 
 
